@@ -401,7 +401,7 @@ def dangling(facts, rep, vs, vidx, tb):
     if not rep.anchor("C04.X", "add_node_with_type in dangling pass", adds):
         return
     # under "useful_nodes.contains(node) == true" every iteration reaches add_node_with_type or an error exit
-    contains = [bb for bb, t in d.calls() if (callee_name(t) or "").endswith("HashSet::<T, S>::contains")
+    contains = [bb for bb, t in d.calls() if (callee_name(t) or "").endswith("::contains")
                 or (callee_name(t) or "").endswith("::contains")]
     lp = None
     for h, blocks in C.loops(d):
